@@ -519,6 +519,14 @@ def run_history(case):
                     rec2._random = rng2
                     res["fresh_probe"] = do_one_run(rec2, spy2, rng2, copy.deepcopy(run))
             out.append(do_one_run(rec, spy, rng, run))
+        if case.get("lookup"):
+            # C18: the default lookup (skip_incomplete=True) per category, as creation ordinals
+            from playback.studio.recordings_lookup import find_matching_recording_ids, RecordingLookupProperties
+            rec.tape_cassette = inner      # lookups do not go through the spy's journal
+            cats = sorted(set(r["op"]["cls"] for r in runs if r["kind"] == "record"))
+            res["lookup"] = {c: sorted(spy.ords.get(i, -1) for i in find_matching_recording_ids(
+                rec, c, RecordingLookupProperties(start_date=None))) for c in cats}
+            rec.tape_cassette = spy
     finally:
         cleanup()
     return res
